@@ -7,10 +7,37 @@ patch of the corpus applied, in parallel, without touching /repo or /verif/evide
   refactorings : behaviour-preserving edits; every check must stay silent.  -> refactorings/verdicts.json
   seeded       : property-breaking edits; the targeted check must fire.     -> seeded/<id>/verdicts.json
 """
-import glob, json, os, shutil, subprocess, sys, tempfile
+import glob, json, os, shutil, subprocess, sys, tempfile, time
 from concurrent.futures import ThreadPoolExecutor
 
 PROPS = ["C%02d" % i for i in range(1, 21)]
+
+
+def rules_digest():
+    """Digest of everything a verdict depends on: the rule modules, the driver and the analysed tree."""
+    import hashlib
+    h = hashlib.sha256()
+    files = []
+    for root in ("/verif/rules", "/verif/driver/src"):
+        for d, _, fs in os.walk(root):
+            if "__pycache__" in d:
+                continue
+            files += [os.path.join(d, f) for f in fs if f.endswith((".py", ".json", ".rs"))]
+    files += ["/verif/known_findings.json", "/verif/driver/Cargo.toml"]
+    for f in sorted(files):
+        if os.path.exists(f):
+            h.update(f.encode())
+            h.update(open(f, "rb").read())
+    repo = os.environ.get("VERIF_REPO", "/repo")
+    for d, ds, fs in os.walk(os.path.join(repo, "src")):
+        ds.sort()
+        for f in sorted(fs):
+            h.update(os.path.join(d, f)[len(repo):].encode())
+            h.update(open(os.path.join(d, f), "rb").read())
+    for f in ("Cargo.toml", "Cargo.lock"):
+        if os.path.exists(os.path.join(repo, f)):
+            h.update(open(os.path.join(repo, f), "rb").read())
+    return h.hexdigest()[:16]
 
 
 def run_one(name, patch, props):
@@ -73,6 +100,18 @@ def main():
             allres = json.load(open("/verif/refactorings/verdicts.json"))
             allres.update(res)
         json.dump(allres, open("/verif/refactorings/verdicts.json", "w"), indent=1)
+    if props == PROPS and not only:
+        # a complete run of this corpus: remember under which rules and tree it was made (see check: selftest)
+        sp = "/verif/.cache/corpus_stamp.json"
+        st = json.load(open(sp)) if os.path.exists(sp) else {}
+        d = rules_digest()
+        if st.get("digest_" + ("seeded" if kind == "refactorings" else "refactorings")) == d:
+            st.update({"digest": d, "time": time.strftime("%Y-%m-%d %H:%M UTC", time.gmtime())})
+        else:
+            st.pop("digest", None)
+        st["digest_" + kind] = d
+        os.makedirs("/verif/.cache", exist_ok=True)
+        json.dump(st, open(sp, "w"))
     bad = [n for n, f in res.items() if (f if kind == "refactorings" else n[:3] not in f)]
     print("done: %d items, %d %s" % (len(res), len(bad), "fired (false alarms)" if kind == "refactorings" else "not caught by the targeted check"))
 
